@@ -98,6 +98,20 @@ Inductive nreparg := NScalar (k : nat) | NArr (l : list nat).
 Definition nrep_vec (nenv : nat) (a : nreparg) : list nat :=
   match a with NScalar k => repeat k nenv | NArr l => l end.
 
+(** the nenv setter (since commit e2384507): a stored nrep array whose length differs from the new nenv and whose
+    entries are all equal (numpy.all(nrep == nrep[0]); an integer nrep is stored broadcast, so it is of this kind) is
+    re-broadcast to the new nenv; any other array is left as it is.  The stored array is never empty (nenv > 0). *)
+Definition uniform (l : list nat) : bool := match l with [] => true | h :: t => forallb (Nat.eqb h) t end.
+Definition set_nenv (nenv' : nat) (attr : list nat) : list nat :=
+  if (length attr =? nenv')%nat then attr else
+  match attr with
+  | h :: _ => if uniform attr then repeat h nenv' else attr
+  | [] => attr
+  end.
+(** the stored nrep array at the call: [nenv_set = None] when nenv was not reassigned after construction *)
+Definition nrep_attr_of (nenv0 : nat) (a : nreparg) (nenv_set : option nat) : list nat :=
+  match nenv_set with Some nenv' => set_nenv nenv' (nrep_vec nenv0 a) | None => nrep_vec nenv0 a end.
+
 (** ** G_E_Phenotyping.phenotype *)
 Definition prow : Type := (str * option Z * Z * Z * list Q).   (* taxa, taxa_grp, env, rep, trait values *)
 Definition p_taxa (r : prow) : str := let '(x, _, _, _, _) := r in x.
@@ -138,15 +152,26 @@ End Phenotype.
 Definition grp_col (n : nat) (g : option (list Z)) : list (option Z) :=
   match g with Some l => map Some l | None => repeat None n end.
 
-(** the whole call: [None] when the scripted requests do not have the shape/order the model consumes.
-    [nrep_attr] is the stored nrep array (built by the setter from the nenv in force at that time); the loop is
-    zip(range(nenv), nrep_attr) with the nenv in force at the call. *)
-Definition phenotype (n t : nat) (taxa : option (list str)) (grp : option (list Z)) (gvm : list (list Q))
+(** the whole call: [None] when the call raises (since commit c6ec4108: check_ndarray_len_gteq(nrep, nenv), before any
+    draw) or when the scripted requests do not have the shape/order the model consumes.
+    [nrep_attr] is the stored nrep array (see [nrep_attr_of]); the loop is zip(range(nenv), nrep_attr) with the nenv in
+    force at the call. *)
+Definition phenotype_loop (n t : nat) (taxa : option (list str)) (grp : option (list Z)) (gvm : list (list Q))
     (nenv : nat) (nrep_attr : list nat) (sd_env sd_rep sd_err : list Q) (flat : list (list Q)) : option (list prow) :=
   match parse_envs (firstn nenv nrep_attr) n t flat with
   | Some (ds, []) => Some (env_blocks (labels_or_auto "Taxon"%string n taxa) (grp_col n grp) gvm sd_env sd_rep sd_err 1%Z ds)
   | _ => None
   end.
+Definition phenotype (n t : nat) (taxa : option (list str)) (grp : option (list Z)) (gvm : list (list Q))
+    (nenv : nat) (nrep_attr : list nat) (sd_env sd_rep sd_err : list Q) (flat : list (list Q)) : option (list prow) :=
+  if (length nrep_attr <? nenv)%nat then None
+  else phenotype_loop n t taxa grp gvm nenv nrep_attr sd_env sd_rep sd_err flat.
+
+(** the behaviour BEFORE commits e2384507 / c6ec4108: the nenv setter left the stored nrep array alone and the call did
+    not check its length, zip() silently stopped at the shorter operand -- kept only to state the refutation that
+    documents the repaired defects *)
+Definition old_nrep_attr_of (nenv0 : nat) (a : nreparg) (nenv_set : option nat) : list nat := nrep_vec nenv0 a.
+Definition old_phenotype := phenotype_loop.
 
 Definition pheno_cols (tnames : list str) : list str := ["taxa"; "taxa_grp"; "env"; "rep"]%string ++ tnames.
 
@@ -178,8 +203,8 @@ Definition t_grp (r : trow) : option Z := snd (fst r).
 Definition t_val (r : trow) : list Q := snd r.
 
 (** group key (taxon label, group label); since the fix (commit 187dc882) groupby runs with dropna=False: a null group
-    label is a key of its own, sorted after every integer label.  Without a group column the key is the label alone
-    (second component constant). *)
+    label is a key of its own, sorted after every integer label.  Without a group column -- and, since commit 19866ce8,
+    whenever a genotype matrix is given -- the key is the label alone (second component constant). *)
 Definition key : Type := (str * option Z).
 Definition key_of (use_grp : bool) (r : trow) : key :=
   if use_grp then (t_taxa r, t_grp r) else (t_taxa r, Some 0%Z).
@@ -239,26 +264,34 @@ Definition gtarg : Type := option (option (list str) * option (list Z)).
 (** result: taxa, taxa_grp, trait, rows (None = the row is missing / NaN) *)
 Definition est_out : Type := (list str * option (list Z) * list str * list (option (list Q))).
 
-Definition estimate (use_grp has_grp_col : bool) (tcols names : list str) (rows : list trow) (gt : gtarg) : option est_out :=
+(** [by_grp_gt]: is the group column a group-by key when a genotype matrix is given?  [false] in the code since
+    commit 19866ce8 (by = [taxa] when gtobj is given: the join is on the label, so every record of a taxon is averaged),
+    [true] in the former code (group by (taxa, taxa_grp), then join by label: the last group won). *)
+Definition estimate_gen (by_grp_gt : bool) (use_grp has_grp_col : bool) (tcols names : list str) (rows : list trow) (gt : gtarg) : option est_out :=
   match resolve tcols names with
   | None => None                                             (* check_pandas_DataFrame_has_columns *)
   | Some sel =>
     if use_grp && negb has_grp_col then None else
-    let a := agg use_grp sel rows in
     match gt with
-    | None => Some (map (fun kv => fst (fst kv)) a, (if use_grp then Some (map (fun kv => grp_code (snd (fst kv))) a) else None), tcols,
+    | None => let a := agg use_grp sel rows in
+              Some (map (fun kv => fst (fst kv)) a, (if use_grp then Some (map (fun kv => grp_code (snd (fst kv))) a) else None), tcols,
                     map (fun kv => Some (snd kv)) a)
     | Some (None, _) => None                                 (* check_GenotypeMatrix_has_taxa *)
-    | Some (Some gtx, gtg) => Some (gtx, gtg, tcols, join gtx a)
+    | Some (Some gtx, gtg) => Some (gtx, gtg, tcols, join gtx (agg (use_grp && by_grp_gt) sel rows))
     end
   end.
+Definition estimate := estimate_gen false.
 
-(** the behaviour BEFORE commit 187dc882 (groupby with the default dropna=True): records whose group label is null
-    were dropped before aggregation — kept only to state the refutation that documents the repaired defect *)
+(** the behaviour BEFORE commit 19866ce8 -- kept only to state the refutation that documents the repaired defect *)
+Definition old_estimate := estimate_gen true.
+
+(** the behaviour BEFORE commit 187dc882 (groupby with the default dropna=True, and the former group-by keys): records
+    whose group label is null were dropped before aggregation — kept only to state the refutation that documents the
+    repaired defect *)
 Definition drop_null_groups (use_grp : bool) (rows : list trow) : list trow :=
   if use_grp then filter (fun r => match t_grp r with Some _ => true | None => false end) rows else rows.
 Definition estimate_dropna (use_grp has_grp_col : bool) (tcols names : list str) (rows : list trow) (gt : gtarg) : option est_out :=
-  estimate use_grp has_grp_col tcols names (drop_null_groups use_grp rows) gt.
+  old_estimate use_grp has_grp_col tcols names (drop_null_groups use_grp rows) gt.
 
 (** ** comparison helpers for the correspondence shards (implementation values first, model values second) *)
 Fixpoint list_agree {A B} (f : A -> B -> bool) (l1 : list A) (l2 : list B) : bool :=
@@ -269,6 +302,8 @@ Definition prow_agree (impl model : prow) : bool :=
   && Z.eqb (p_rep impl) (p_rep model) && qclose_l (p_val impl) (p_val model).
 Definition pheno_agree (impl : list prow) (model : option (list prow)) : bool :=
   match model with Some m => list_eqb prow_agree impl m | None => false end.
+(** the implementation raised *)
+Definition pheno_refused (model : option (list prow)) : bool := match model with None => true | Some _ => false end.
 Definition true_agree (impl model : list (str * option Z * list Q)) : bool :=
   list_eqb (fun a b => String.eqb (t_taxa a) (t_taxa b) && optz_eqb (t_grp a) (t_grp b) && qclose_l (t_val a) (t_val b)) impl model.
 Definition row_agree (width : nat) (impl : list (option Q)) (model : option (list Q)) : bool :=
